@@ -355,7 +355,54 @@ def run_history(run, rng, hid, maxlen, steps_out):
         d = O.o_build(O.skel_of(td))
         if rng.random() < 0.15:
             check_roundtrip(run, hid, stepno, td, d)
+        if rng.random() < 0.12:
+            check_split_partition(run, rng, hid, stepno, td, d)
     return hist
+
+
+def check_split_partition(run, rng, hid, stepno, td, d):
+    """split_keys(*key_sets) out of place PARTITIONS the leaves: every tensor / non-tensor of the original is found, with its value, in exactly
+    one of the returned tensordicts (the last one is the remainder) and nothing else is. Keys are drawn from the bound paths, prefix-related
+    keys INCLUDED (the out-of-place call visits the keys in the order given). Props/C04.lean: split_partition_partial (unrelated keys) and
+    the counter-witness split_related_keys_lose_leaf (known finding C04-split-related-keys-lose-leaf)."""
+    paths = [p for p, _ in O.o_paths(d)]
+    if not paths or not O.o_leaves(d) or any(v[0] == "n" for _, v in O.o_paths(d) if not isinstance(v, dict)):
+        return              # (keys through a NonTensorData: the other known finding)
+    nsets = rng.randint(1, 2)
+    sets = [[rng.choice(paths) for _ in range(rng.randint(1, 2))] for _ in range(nsets)]
+    allk = [k for ks in sets for k in ks]
+    if len(set(allk)) != len(allk):
+        return
+    strict = rng.random() < 0.5
+    case = {"history": hid, "step": stepno, "pre": O.o_skel(d), "op": ["split-partition", [[list(k) for k in ks] for ks in sets], strict]}
+    split_partition_case(run, td, d, sets, strict, case)
+
+
+def split_partition_case(run, td, d, sets, strict, case):
+    leaves = O.o_leaves(d)
+    allk = [tuple(k) for ks in sets for k in ks]
+    related = any(a != b and a == b[:len(a)] for a in allk for b in allk)
+    run.count("ops", "split-partition:" + ("related" if related else "unrelated"))
+    try:
+        with time_limit(20):
+            outs = td.split_keys(*[[tuple(k) if len(k) > 1 else k[0] for k in ks] for ks in sets], inplace=False, strict=strict)
+            got = [O.o_leaves(O.o_build(O.skel_of(o))) for o in outs]
+    except TimeoutError:
+        raise
+    except Exception:  # noqa  (a missing key with strict, a key below one that was already moved: refused calls are judged by the history stream)
+        run.oracle_ok("split-partition")
+        return
+    tag = "related" if related else "unrelated"
+    flat = [pv for g in got for pv in g]
+    lost = [pv for pv in leaves if pv not in flat]
+    extra = [pv for pv in flat if pv not in leaves]
+    dup = len(flat) != len(set((p, repr(v)) for p, v in flat))
+    if lost:
+        run.oracle_fail("split-partition", case, f"split_keys lost {lost[:3]}: found in none of the {len(outs)} results {got}", f"split:leaf-lost:{tag}")
+    elif extra or dup:
+        run.oracle_fail("split-partition", case, f"split_keys results {got} hold {'a leaf twice' if dup else extra[:3]} (original leaves {leaves[:6]})", f"split:leaf-extra:{tag}")
+    else:
+        run.oracle_ok("split-partition")
 
 
 def check_roundtrip(run, hid, stepno, td, d):
@@ -367,9 +414,10 @@ def check_roundtrip(run, hid, stepno, td, d):
     case = {"history": hid, "step": stepno, "pre": O.o_skel(d), "op": ["roundtrip", "."]}
     run.count("ops", "roundtrip")
     try:
-        back = td.flatten_keys(".").unflatten_keys(".")
-        bd = O.o_build(O.skel_of(back))
-        same = O.o_build(O.skel_of(td))
+        with time_limit(20):
+            back = td.flatten_keys(".").unflatten_keys(".")
+            bd = O.o_build(O.skel_of(back))
+            same = O.o_build(O.skel_of(td))
     except TimeoutError:
         raise
     except Exception as e:  # noqa
@@ -412,6 +460,14 @@ def replay_file(run, path, quiet=False):
             op[1] = [[tup(k) for k in ks] for ks in op[1]]
         td = O.build_impl(pre)
         d = O.o_build(pre)
+        if op[0] == "split-partition":
+            split_partition_case(run, td, d, [[tup(k) for k in ks] for ks in op[1]], op[2], case)
+            run.count("corpus", case.get("id", op[0]))
+            continue
+        if op[0] == "roundtrip":
+            check_roundtrip(run, case.get("history"), case.get("step"), td, d)
+            run.count("corpus", case.get("id", op[0]))
+            continue
         R = O.apply_oracle(d, op)
         out, res = O.apply_impl(td, op)
         post = O.skel_of(td)
@@ -439,8 +495,11 @@ def main():
     run.assumptions += [
         "entries are tensors, NonTensorData and TensorDict nodes with batch_size []; values are always valid (shape/device validation is C01)",
         "keys that run through a NonTensorData are outside the model (known finding C04-nontensor-transparent); they are judged by the oracle only",
-        "split_keys is modelled for key sets whose keys are pairwise prefix-unrelated (inplace pops them in hash order)",
-        "locking, memmap/shared state and lazy/persistent containers are outside the model (lazy stacks / tensorclass are run against the oracle only)",
+        "split_keys in the correspondence histories is issued with key sets whose keys are pairwise prefix-unrelated (inplace pops them in hash order); the oracle site "
+        "split-partition issues it out of place with prefix-related keys as well: there it loses tensors (known finding C04-split-related-keys-lose-leaf; "
+        "theorems split_partition_partial / split_related_keys_lose_leaf)",
+        "locking, memmap/shared state and persistent containers are outside the model; lazy stacks (homogeneous keys) and tensorclass-held tensordicts are "
+        "compared exactly, member by member, with the same model (streams lazy-stack.* / tensorclass.*)",
     ]
     run.build_and_audit(["TdVerif.Props.C04"])
     import c04_pins
